@@ -5,7 +5,7 @@ open StarsimModel.C16
 #print axioms C16_ageing_increment_is_dt_year
 #print axioms C16_deaths_timepar_factor_variant
 #print axioms C16_delivery_dt_variant
-#print axioms factorOf_year_ratio
+#print axioms year_ratio_known
 #print axioms C16_births_linear
 #print axioms C16_deaths_number_linear
 #print axioms C16_fertility_linear
